@@ -54,11 +54,13 @@ func c18Setup(state string) (*c18World, error) {
 		"CREATE TABLE e (a int)",
 		"CREATE TABLE dd (a int, a varchar(255))",
 		"INSERT INTO dd VALUES (1, 'one')",
+		"CREATE TABLE z ()", // a table without columns, with two rows (if the engine lets it be)
+		"INSERT INTO z VALUES (), ()",
 	}
 	for _, q := range setup {
 		if err := run(q); err != nil {
-			if strings.Contains(q, " dd ") {
-				continue // the duplicate-column table is itself one of the inputs under test
+			if strings.Contains(q, " dd ") || strings.Contains(q, " z ") {
+				continue // the duplicate-column table and the column-less table are themselves inputs under test
 			}
 			return w, err
 		}
@@ -169,6 +171,10 @@ func c18Selects(thorough bool) []string {
 		}
 	}
 	out = append(out, "SELECT * FROM sys_pages", "SELECT * FROM sys_schema ORDER BY field_length", "SELECT count(*), table_name FROM sys_schema GROUP BY table_name",
+		"SELECT * FROM z", "SELECT count(*) FROM z", "SELECT a FROM z", "SELECT * FROM z ORDER BY a", "SELECT * FROM z LIMIT 1",
+		"SELECT d FROM t JOIN z ON 1 = 1", "SELECT a, c FROM z JOIN t ON 1 = 1", "SELECT * FROM t LEFT JOIN z ON 1 = 1", "SELECT c, d FROM t RIGHT JOIN z ON 1 = 1",
+		"SELECT count(*), avg(a) FROM t JOIN z ON 1 = 1", "SELECT * FROM z JOIN z z2 ON 1 = 1", "SELECT e FROM z LEFT JOIN u ON 1 = 2", "SELECT e FROM u RIGHT JOIN z ON 1 = 2",
+		"SELECT d, c FROM t JOIN z ON 1 = 1 ORDER BY c LIMIT 2 OFFSET 1", "SELECT a, count(*) FROM t JOIN z ON 1 = 1 GROUP BY a",
 		"SELECT 1", "SELECT 1, 'x', true", "SELECT count(*)", "SELECT avg(a)", "SELECT a", "SELECT * ", "SELECT 1 LIMIT 1", "SELECT 1 ORDER BY a", "SELECT 1 WHERE 1 = 1", "SELECT 1 GROUP BY a",
 		"SHOW DATABASE", "SHOW databases", "SELECT", "SELECT FROM t", "SELECT * FROM", "SELECT * FROM t WHERE", "SELECT * FROM t ORDER BY", "SELECT * FROM t GROUP BY")
 	return out
@@ -216,7 +222,7 @@ func runC18(env *lib.Env, rep *lib.Report) {
 	rep.Bounds["read-only statements"] = len(selects)
 	rep.Bounds["mutating statements (each on a fresh database)"] = len(muts)
 	rep.Bounds["session states"] = states
-	rep.Bounds["database"] = "t(a int,b bigint,c varchar,d boolean) with NULLs in every column and a duplicate row; u(a,e) with a NULL; empty table e; dd(a int, a varchar) if it can be created"
+	rep.Bounds["database"] = "t(a int,b bigint,c varchar,d boolean) with NULLs in every column and a duplicate row; u(a,e) with a NULL; empty table e; dd(a int, a varchar) and the column-less z with two rows if they can be created"
 	fails := map[string]int{}
 	known := env.OpenKnown()
 	var n int64
